@@ -63,8 +63,9 @@ def pinned_line(r):
 
 
 def case_text(r):
-    return "fmt=%s builder=%s oracle=%s impl=%s model=%s doc=%s veneers=%s defs=%s" % (
-        r.case.fmt, r.builder, r.verdict, r.impl[:400], (r.model or "")[:400], r.doc, r.case.veneers, r.case.defs)
+    errs = r.impl.rsplit(";; errors=", 1)[1] if ";; errors=" in r.impl else ""
+    return "fmt=%s builder=%s oracle=%s replay-errors=%s impl=%s model=%s doc=%s veneers=%s defs=%s" % (
+        r.case.fmt, r.builder, r.verdict, errs, r.impl[:400], (r.model or "")[:400], r.doc, r.case.veneers, r.case.defs)
 
 
 def sexp_to_json(hb_rows_doc):
